@@ -32,6 +32,10 @@ SPECIAL = {
 }
 
 
+def np_(E):
+    return E.np
+
+
 def _mk(E, p, x):
     np = E.np
     nd = E.mod("physt.histogram_nd")
@@ -108,7 +112,8 @@ class C09Projection(Harness):
         pr = E.attempt(h.projection, *axes)
         if isinstance(pr, Raised):
             return {"raised": pr}
-        obs = {"proj": _snap(E, pr), "parent_before": before, "parent_after": _snap(E, h)}
+        obs = {"proj": _snap(E, pr), "parent_before": before, "parent_after": _snap(E, h),
+               "shares": any(a is b for a in pr._binnings for b in h._binnings) or bool(np_(E).shares_memory(pr.frequencies, h.frequencies))}
         if p["chain"] is not None:
             pr2 = E.attempt(pr.projection, p["chain"])
             obs["chain"] = _snap(E, pr2) if not isinstance(pr2, Raised) else {"raised": pr2}
@@ -133,6 +138,7 @@ class C09Projection(Harness):
             return zsum(v for idx, v in src.items() if all(idx[k] == kidx[i] for i, k in enumerate(keep)))
 
         yield "shape", pr["shape"] == kshape
+        yield "shares_nothing_with_parent", obs["shares"] is False
         yield "ndim", pr["ndim"] == len(kept)
         names = SPECIAL[p["special"]][1] if p.get("special") else (p.get("names") or NAMES)
         expected_cls = {1: "Histogram1D", 2: "Histogram2D"}.get(len(kept), "HistogramND")
@@ -197,7 +203,8 @@ class C09Misc(Harness):
         h = _mk(E, p, x)
         if p["op"] == "T":
             t = h.T
-            return {"T": _snap(E, t), "TT": _snap(E, t.T), "TT_eq": bool(t.T == h), "parent": _snap(E, h)}
+            shares = bool(E.np.shares_memory(t.frequencies, h.frequencies)) or bool(E.np.shares_memory(t.errors2, h.errors2)) or any(a is b for a in t._binnings for b in h._binnings)
+            return {"T": _snap(E, t), "TT": _snap(E, t.T), "TT_eq": bool(t.T == h), "parent": _snap(E, h), "T_shares": shares}
         if p["op"] == "acc":
             a = E.attempt(h.accumulate, p["axis"])
             a2 = E.attempt(h.accumulate, NAMES[p["axis"]])
@@ -228,6 +235,7 @@ class C09Misc(Harness):
             yield "TT_contents", z3.And([cx.eq(tt["freq"][i][j], f[(i, j)]) for (i, j) in idxs] + [cx.eq(tt["err2"][i][j], q[(i, j)]) for (i, j) in idxs])
             yield "TT_names", tt["axis_names"] == NAMES[:2] and tt["shape"] == shape
             yield "TT_eq", obs["TT_eq"] is True
+            yield "T_shares_nothing_with_parent", obs["T_shares"] is False
             yield "T_keeps_missed", z3.And(cx.eq(t["missed"], cx.t(x["m"])), cx.eq(tt["missed"], cx.t(x["m"])), cx.eq(obs["parent"]["missed"], cx.t(x["m"])))
             yield "T_meta", t["name"] == "parent" == tt["name"] and t["dtype"] == obs["parent"]["dtype"] == tt["dtype"]
             yield "parent_unchanged", z3.And([cx.eq(getcell(obs["parent"]["freq"], idx), f[idx]) for idx in idxs])
